@@ -126,14 +126,14 @@ fn main() {
     let args = parse_args();
     quiet_panics();
     let rt = tokio::runtime::Builder::new_current_thread().enable_all().build().unwrap();
-    let mut out = Out::new(&args, "From Verif Require Import Persist RaftSm.", "RaftSm.case", "RaftSm.check_case", if args.thorough { 250 } else { 30 });
+    let mut out = Out::new(&args, "From Verif Require Import Persist RaftSm.", "RaftSm.case", "RaftSm.check_case", if args.thorough { 36 } else { 30 });
     out.rule = "request sequences of 2..10 requests (create/delete/update of nodes and relationships, queries; 3 tenants of \
                 which some are not registered or have quotas 1..3, so that requests fail; ids 1..4; label lists empty, \
                 repeated and unsorted) applied to 2 or 3 state machines on fresh directories, the last one through \
                 RaftNode::write; each replica recovered by a new PersistenceManager. Non-trivial = at least one request was \
                 acknowledged; distinct by case text."
         .to_string();
-    let n = if args.thorough { 2500 } else { 60 };
+    let n = if args.thorough { 600 } else { 60 };
     let base = args.out.join(".c32-run");
     for c in 0..n {
         let idx = out.next_index();
